@@ -38,6 +38,10 @@ Record sflratio : Type := {
   sr_over : bool                       (* fewer_remaining_shares_than_sfl_shares *)
 }.
 
+(* LessEqualZeroDecimal::try_from(d).unwrap() (decimal.rs: is_sign_negative || is_zero) *)
+Definition lez_unwrap (site : N) (q : Qc) : res Qc :=
+  if Qcltb 0 q then Panic (PanicConstraint site) else Ok q.
+
 Section WithArith.
   Variable A : arith.
 
@@ -194,7 +198,11 @@ Section WithArith.
         else gen_sfla t loss r
     end.
 
-  (* get_delta_superficial_loss_info; cap_loss < 0 *)
+  (* get_delta_superficial_loss_info; cap_loss < 0.  Since the fix "treat a
+     superficial loss that rounds to zero effective cents as no superficial
+     loss": the rounded product goes into a LessEqualZeroDecimal (site
+     eff_cent is now that try_from(..).unwrap()), and a zero calculated amount
+     with no user-specified value means no superficial loss. *)
   Definition delta_sfl (bef : list tx) (t : tx) (sold : Qc) (spec : option (Qc * bool))
              (aft : list tx) (st : pstate) (cap_loss : Qc)
     : res (option (sflinfo * list tx)) :=
@@ -206,7 +214,7 @@ Section WithArith.
                 q1 <- pos_unwrap Site.ratio_to_pos q ;;
                 l <- neg_mul_pos A cap_loss q1 ;;
                 c <- eff_cent l ;;
-                neg_unwrap Site.eff_cent c
+                lez_unwrap Site.eff_cent c
             | None => Ok 0
             end ;;
     match spec with
@@ -221,9 +229,9 @@ Section WithArith.
     | None =>
         match m with
         | Some r =>
-            c <- neg_unwrap Site.sfl_neg calc ;;
-            txs <- gen_sfla t c (sr_portions r) ;;
-            Ok (Some ({| sf_amount := c; sf_num := sr_num r; sf_den := sr_den r;
+            if negb (Qcltb calc 0) then Ok None else
+            txs <- gen_sfla t calc (sr_portions r) ;;
+            Ok (Some ({| sf_amount := calc; sf_num := sr_num r; sf_den := sr_den r;
                          sf_over := sr_over r |}, txs))
         | None => Ok None
         end
